@@ -106,7 +106,7 @@ Lemma pinned_env :
   gen_env_addFunc = ["id := len(env.userFuncs)"; "env.userFuncs = append(env.userFuncs, f)"; "env.nameToFuncID[key] = uint16(id)"] /\
   gen_env_AddFunc = ["env.addFunc(funcKey{qualifier: pkgPath, name: funcName}, f)"] /\
   gen_env_RemoveFunc = ["delete(env.nameToFuncID, funcKey{qualifier: pkgPath, name: funcName})"] /\
-  gen_env_GetFunc = ["id := env.nameToFuncID[funcKey{qualifier: pkgPath, name: funcName}]"; "return env.userFuncs[id]"] /\
+  gen_env_GetFunc = ["id, ok := env.nameToFuncID[funcKey{qualifier: pkgPath, name: funcName}]"; "if !ok { return nil }"; "return env.userFuncs[id]"] /\
   gen_env_UpdateEvalEnv = ["evalEnv.nativeFuncs = env.nativeFuncs"; "evalEnv.userFuncs = env.userFuncs"] /\
   gen_newRulesRunner_state =
     ["runnerState := ctx.State";
